@@ -104,6 +104,8 @@ class World:
             with open(os.path.join(self.base, "home", ".gitconfig"), "w") as f:
                 f.write(gc)
         if self.fe_kind == "wsgi":
+            if (self.server_env or {}).get("VF_UMASK"):
+                os.umask(int(self.server_env["VF_UMASK"], 8))
             os.environ["HOME"] = os.path.join(self.base, "home")
             os.makedirs(os.environ["HOME"], exist_ok=True)
             self.fe = FE.WsgiFE(self.root, principal=self.principal, autocreate={"autocreate": "yes", "defaults": "defaults", None: None}[self.autocreate], prefix=self.prefix)
